@@ -22,7 +22,9 @@ RULE = ("every method of the Client interface x name/version tuples (plain, odd-
         "headers, 4xx with diagnostics / error JSON / text / empty, 401 without token, 429, permanent 5xx, permanent "
         "reset); every diagnostics-returning method x diagnostics replies whose body code and HTTP status agree or "
         "disagree; same-method tuples differing in one position or permuted (collision oracle inside a group); "
-        "malformed stream: one name per call replaced by '', '.', '..', names with / % ? # space, control and "
+        "SEQUENCES of 2-4 operations on one client instance (every conditional update followed by every method, two "
+        "different tags then every method, tag combinations t1/t2/none on one environment, random): per request the "
+        "tag header must be exactly the tag of THAT call; malformed stream: one name per call replaced by '', '.', '..', names with / % ? # space, control and "
         "non-ASCII bytes, sub-delims.  non-trivial = at least one request reached the server; distinct by content")
 ASSUMPTIONS = [
     "valid names: non-empty, not '.' or '..', only characters net/url leaves unescaped in a path "
@@ -414,18 +416,121 @@ def gen_calls(rng, tier):
     return calls
 
 
+SEQ_FINALS = None
+
+
+def seq_final(rng, op):
+    """replies for the operations of a sequence: no transport faults and no 5xx (a connection left over by an earlier
+    operation of the same client would bring net/http's replay into play; covered by the single-call families)"""
+    pool = FINALS_OK + [f for f in FINALS_ERR if f["k"] == "resp" and f["status"] < 500]
+    return rng.choice(FINALS_OK) if rng.chance(3, 4) else rng.choice(pool)
+
+
+UPDATE_OPS = ["UpdateEnvironmentWithRevision", "UpdateEnvironmentWithProject", "UpdateEnvironment"]
+
+
+def tagged(rng, op, tag, names=None):
+    """a conditional (tag != b"") or unconditional update on the environment `names` = (org, project, env)"""
+    o, p, e = names or (b"org1", b"proj", b"env")
+    s = [o, e, tag] if op == "UpdateEnvironment" else [o, p, e, tag]
+    return call(op, s, [], b"tok", [], seq_final(rng, op))
+
+
+def gen_seqs(rng, tier):
+    """SEQUENCES of 2-4 operations on ONE client instance: what a request carries must not depend on the requests the
+    same client made before (a tag given to an earlier conditional update must not reappear)."""
+    thorough = tier == "thorough"
+    seqs = []
+    e3 = [b"org1", b"proj", b"env"]
+    t1, t2 = b"etag1", b"\"tag-2\""
+
+    def other(op, tok=b"tok"):
+        s, n = mk_args(rng, op)
+        return call(op, s, n, tok, [], seq_final(rng, op))
+
+    # regression corpus
+    seqs.append([tagged(rng, UPDATE_OPS[0], t1), tagged(rng, UPDATE_OPS[0], t2)])
+    seqs.append([tagged(rng, UPDATE_OPS[0], t1), tagged(rng, UPDATE_OPS[0], b"")])
+    seqs.append([tagged(rng, UPDATE_OPS[1], t1), call("GetEnvironment", e3 + [b""], [0], b"tok", [], FINALS_OK[0])])
+    seqs.append([tagged(rng, UPDATE_OPS[2], t1), tagged(rng, UPDATE_OPS[1], t2), call("DeleteEnvironment", e3),
+                 call("GetEnvironment", e3 + [b""], [1], b"tok", [], FINALS_OK[0])])
+    seqs.append([call("GetEnvironment", e3 + [b""], [0], b"tok", [], FINALS_OK[0]), tagged(rng, UPDATE_OPS[0], b"E1"),
+                 call("GetEnvironment", e3 + [b""], [0], b"tok", [], FINALS_OK[1]), tagged(rng, UPDATE_OPS[0], b"\"e2\"")])
+    # every conditional update followed by every method of the interface; two different tags then every method
+    for a in UPDATE_OPS:
+        for b in OP_NAMES:
+            seqs.append([tagged(rng, a, rng.choice(ETAGS[1:])), other(b)])
+    for b in OP_NAMES:
+        a1, a2 = rng.choice(UPDATE_OPS), rng.choice(UPDATE_OPS)
+        tags = rng.shuffle(ETAGS[1:])
+        seqs.append([tagged(rng, a1, tags[0]), tagged(rng, a2, tags[1]), other(b)])
+        seqs.append([tagged(rng, a1, tags[2]), tagged(rng, a2, b""), other(b)])
+    # tag combinations on one environment: (t1,t2), (t1,""), ("",t1), (t1,t1)
+    for a1 in UPDATE_OPS:
+        for a2 in UPDATE_OPS:
+            for x, y in [(t1, t2), (t1, b""), (b"", t1), (t1, t1)]:
+                seqs.append([tagged(rng, a1, x), tagged(rng, a2, y), tagged(rng, rng.choice(UPDATE_OPS), b"")])
+    # random sequences of 2..4 operations (updates over-represented); also on a client without a token
+    for _ in range(1200 if thorough else 150):
+        tok = rng.choice(TOKENS)
+        k = 2 + rng.below(3)
+        sq = []
+        for _ in range(k):
+            if rng.chance(2, 5):
+                c = tagged(rng, rng.choice(UPDATE_OPS), rng.choice(ETAGS), (rng.choice(PLAIN), rng.choice(PLAIN), rng.choice(PLAIN)))
+                c["token"] = tok.hex()
+            else:
+                c = other(rng.choice(OP_NAMES), tok)
+            sq.append(c)
+        seqs.append(sq)
+    # the client caches the account after the first GetPulumiAccountDetails (no second request; not modelled): keep
+    # at most one such call per sequence; one token per client instance
+    out = []
+    for sq in seqs:
+        seen, keep = False, []
+        for c in sq:
+            if c["op"] == "GetPulumiAccountDetails":
+                if seen:
+                    continue
+                seen = True
+            c["token"] = sq[0]["token"]
+            keep.append(c)
+        if len(keep) >= 2:
+            out.append({"seq": keep})
+    return out
+
+
 def gen(rng, tier):
     calls = gen_calls(rng, tier)
     slow = [c for c in calls if delay_of(c) > 0]
     fast = [c for c in calls if delay_of(c) == 0]
     slow.sort(key=lambda c: (delay_of(c), c["op"]))
+    seqs = gen_seqs(rng.fork("seq"), tier)
     groups = []
+    # sequences first: they are cheap and a stale-header defect shows only there
+    for i in range(0, len(seqs), 8):
+        groups.append({"calls": seqs[i:i + 8]})
     for i in range(0, len(fast), 12):
         groups.append({"calls": fast[i:i + 12]})
     for i in range(0, len(slow), 48):
         groups.append({"calls": slow[i:i + 48]})
-    # interleave slow groups so that the 8 runner processes each get some
     return groups
+
+
+def flat(c, o):
+    """(call, observation) pairs of a group, sequences flattened in order"""
+    obs = o.get("calls") if isinstance(o, dict) else None
+    if not obs or len(obs) != len(c["calls"]):
+        obs = [None] * len(c["calls"])
+    for it, oo in zip(c["calls"], obs):
+        if "seq" in it:
+            so = oo.get("seq") if isinstance(oo, dict) else None
+            if not so or len(so) != len(it["seq"]):
+                so = [None] * len(it["seq"])
+            for cc, x in zip(it["seq"], so):
+                yield cc, x
+        else:
+            yield it, oo
 
 
 # ---- wire line -------------------------------------------------------------------------------------------
@@ -475,32 +580,52 @@ def call_sx(c, o):
         "t" if c["op"] in DIAG_OPS else "f", obs_sx(o))
 
 
+def item_sx(it, oo):
+    if "seq" in it:
+        so = oo.get("seq") if isinstance(oo, dict) else None
+        if not so or len(so) != len(it["seq"]):
+            so = [None] * len(it["seq"])
+        return "(seq %s)" % " ".join(call_sx(cc, x) for cc, x in zip(it["seq"], so))
+    return call_sx(it, oo)
+
+
 def line(c, o):
     obs = o.get("calls") if isinstance(o, dict) else None
     if not obs or len(obs) != len(c["calls"]):
         obs = [None] * len(c["calls"])
-    return "(grp %s)" % " ".join(call_sx(cc, oo) for cc, oo in zip(c["calls"], obs))
+    return "(grp %s)" % " ".join(item_sx(it, oo) for it, oo in zip(c["calls"], obs))
 
 
 def shrink(c):
     cs = c["calls"]
-    if len(cs) <= 1:
-        return
-    for x in cs:
-        yield {"calls": [x]}
-    if len(cs) > 2:
-        for i in range(len(cs)):
-            for j in range(i + 1, len(cs)):
-                if cs[i]["op"] == cs[j]["op"]:
-                    yield {"calls": [cs[i], cs[j]]}
+    if len(cs) > 1:
+        for x in cs:
+            yield {"calls": [x]}
+        plain = [x for x in cs if "seq" not in x]
+        if len(plain) > 2:
+            for i in range(len(plain)):
+                for j in range(i + 1, len(plain)):
+                    if plain[i]["op"] == plain[j]["op"]:
+                        yield {"calls": [plain[i], plain[j]]}
+    elif len(cs) == 1 and "seq" in cs[0]:
+        sq = cs[0]["seq"]
+        if len(sq) > 2:
+            for i in range(len(sq)):
+                yield {"calls": [{"seq": sq[:i] + sq[i + 1:]}]}
+        # simpler replies
+        for i, x in enumerate(sq):
+            if x["final"] != FINALS_OK[0]:
+                yield {"calls": [{"seq": sq[:i] + [dict(x, final=FINALS_OK[0])] + sq[i + 1:]}]}
 
 
 def describe(c):
     out = []
-    for x in c["calls"][:3]:
-        out.append({"op": x["op"], "s": [bytes.fromhex(h).decode("latin-1") for h in x["s"]], "n": x["n"],
-                    "faults": len(x["script"])})
-    return {"calls": len(c["calls"]), "first": out}
+    def one(x):
+        return {"op": x["op"], "s": [bytes.fromhex(h).decode("latin-1") for h in x["s"]], "n": x["n"],
+                "faults": len(x["script"])}
+    for it in c["calls"][:3]:
+        out.append({"seq": [one(x) for x in it["seq"]]} if "seq" in it else one(it))
+    return {"items": len(c["calls"]), "first": out}
 
 
 def distribution(cases, r):
@@ -512,7 +637,11 @@ def distribution(cases, r):
         if not obs:
             d["crashed_groups"] = d.get("crashed_groups", 0) + 1
             continue
-        for cc, oo in zip(c["calls"], obs):
+        for it in c["calls"]:
+            if "seq" in it:
+                d["sequences"] = d.get("sequences", 0) + 1
+                d["sequence_calls"] = d.get("sequence_calls", 0) + len(it["seq"])
+        for cc, oo in flat(c, o):
             d["calls"] += 1
             if not oo or "reqs" not in oo:
                 d["panic"] = d.get("panic", 0) + 1
@@ -556,8 +685,7 @@ def model_show(c, o):
     """what the Coq model predicts for each call of a replayed group (evaluated inside Coq)"""
     import re
     out = []
-    obs = (o or {}).get("calls") or [None] * len(c["calls"])
-    for i, (cc, oo) in enumerate(zip(c["calls"], obs)):
+    for i, (cc, oo) in enumerate(flat(c, o or {})):
         l = "(grp %s)" % call_sx(cc, oo)
         text = ("From Verif Require Import Base.Bytes Base.Wire Model.Client Corr.C20.\nOpen Scope string_scope.\n"
                 "Definition L := \"%s\".\n"
